@@ -340,6 +340,13 @@ def paint(draw, widths=("0", "0.0", "1", "2", "0.5", "3.5"), fill_rule=True, dis
                     _put(draw, a, s, "display", ["none", "inline"])
             else:
                 _put(draw, a, s, p, _OPAC)
+    if ("stroke" in a or "stroke" in s) and draw(st.integers(0, 3)) == 0:
+        # dashes: ordinary ones with any cap; the dotted-line idiom (zero-length dashes) only with round / square caps,
+        # where every dash is painted as a dot
+        dash = draw(st.sampled_from(["2 3", "0 6", "0,4", "0 0.5 0 2", "1"]))
+        _put(draw, a, s, "stroke-dasharray", [dash])
+        if dash.split(",")[0].split()[0] == "0" or draw(st.booleans()):
+            _put(draw, a, s, "stroke-linecap", ["round", "square"])
     if fill_rule and draw(st.integers(0, 2)) == 0:
         _put(draw, a, s, "fill-rule", ["evenodd", "nonzero"])
     return {"a": a, "s": s}
